@@ -125,6 +125,29 @@ CHECKS["C19"] = dict(
     design="4 (C19), 5 (D14)",
     note="google.golang.org/protobuf and sarama are modelled (byte equality on every run), not verified; payloads < 2^32 bytes.")
 
+CHECKS["C01"] = dict(
+    engine="e2e",
+    technique="Lean 4 proof (composition of exporter encoders with the collector decoder: e2e_template, e2e_data) + real exporter-to-collector correspondence over tcp/udp/tls/dtls x IPv4/IPv6",
+    text="Proved: e2e_template (the collector model, fed the template message the exporter lays out, delivers and stores the same fields - id, "
+         "enterprise, type, length, name, in order - under the same domain), e2e_data (with that template in force every record count and every "
+         "well-typed value vector comes out bit-identical, IP addresses in canonical length, in every decoding mode), exporter_emits_wire (what the "
+         "exporter model's SendSet writes is exactly that layout), tie_lookup_self (each registry element is found under its own (enterprise, id)). "
+         "A real ExportingProcess is connected to a real CollectingProcess over the four transports and both address families (certificates "
+         "minted at run time); every delivery is compared with the model's prediction and judged directly against what was handed to SendSet.",
+    design="4 (C01)",
+    note="transports are modelled as the identity on messages once established (trusted: kernel loopback, crypto/tls, pion/dtls); UDP <= 60000 and DTLS <= 8000 byte messages.")
+CHECKS["C18"] = dict(
+    engine="tls",
+    technique="Lean 4 proof of decision logic over configurations regenerated from the source (tlsfacts) + exhaustive run of the whole configuration matrix against the real TLS/DTLS stacks; partial (library semantics assumed), one known finding",
+    text="PARTIAL by nature: the theorems (client_accepts_only_authenticated, collector_requires_client_cert, no_plaintext_path, "
+         "dtls_client_accepts_partial + dtls_name_unchecked_witness, model_satisfies_spec_off_known_cells, known_cells_fail, 12 tie lemmas) are about "
+         "the tls.Config / dtls.Config literals and Dial/Listen calls extracted from the current source by tools/tlsfacts under the documented "
+         "semantics of crypto/tls and pion/dtls; that the stacks enforce them is observed, not proved, by running all 1486 matrix cells (server cert "
+         "x ServerName x client cert x client CA x transport x peer version, plus plaintext peers) against the real code with certificates minted at "
+         "run time. The DTLS exporter performs no name check for an empty or IP ServerName (D11): those 56 cells are KNOWN-FINDING.",
+    design="4 (C18), 5 (D11)",
+    note="crypto/tls, crypto/x509 and pion/dtls are trusted to enforce the configuration they are given; negotiated versions are observed only at raw peers.")
+
 NOT_YET = {}
 
 
